@@ -294,9 +294,10 @@ Theorem C19_recognize_plane_same_partition : forall parse_hp parse_num p q hp n 
   recognize_plane parse_hp parse_num q = recognize_plane parse_hp parse_num p.
 Proof. exact recognize_plane_partition. Qed.
 
-(* text -> table END TO END for every rules-as-rows table drawn with ONE, TWO or THREE header lines (`htable`: optional output label
+(* text -> table END TO END for every rules-as-rows table drawn with ONE, TWO or THREE header lines and merged input entries (`htable`: optional output label
    line over all output columns - several outputs -, the line of input expressions and component names, optional allowed-values line;
-   the hit-policy cell and the annotation names span all header lines, an input expression spans the label line and the name line; any
+   the hit-policy cell and the annotation names span all header lines, an input expression spans the label line and the name line;
+   the entries of an input in consecutive rules can be one merged cell (ht_merge; every rule of the group holds the block of the cell); any
    numbers of inputs / outputs / annotations / rules, any column widths and line heights from 1, every text a block of one or more
    lines without box characters, any alignment): the plane built from the characters is recognised as rules-as-rows with the drawn hit
    policy, the drawn number of rules and exactly the fields of the drawn table - input expressions, allowed input values, output label,
@@ -334,6 +335,46 @@ Example C19_headers_nonvacuous :
   length (f_output_values (fields_of (abs_htable hsample CanvasSweep.code))) = 2.
 Proof. exact headers_sweep. Qed.
 
+(* ================================================================== rules as COLUMNS at the character level (C19/CanvasColumnsDraw.v, CanvasColumns.v).
+   The same record `htable` drawn transposed: the header columns ([label column] / expressions and names / [values column]), one column
+   per rule, one line per input / output / annotation, the hit-policy cell under the header columns and the rule numbers in the last
+   line; double vertical line after the header columns, double horizontal lines above the outputs and above the annotations.
+   With rules as columns the recogniser compares the header cells of the PIVOTED plane: *)
+From DV Require Import C19.CanvasColumnsDraw C19.CanvasColumns.
+
+Theorem C19_recognize_plane_same_partition_columns : forall parse_hp parse_num p q hp n px h,
+  E p = E q -> (forall k, S k < h -> below_pattern (pivot (removelast p)) k = below_pattern (pivot (removelast q)) k) ->
+  orientation parse_hp parse_num p = Some (AsColumn, hp, n) -> find_plane is_main (pivot (removelast p)) = Some (px, h) ->
+  recognize_plane parse_hp parse_num q = recognize_plane parse_hp parse_num p.
+Proof. exact recognize_plane_partition_columns. Qed.
+
+(* text -> table END TO END for every table drawn with rules as columns (any numbers of inputs / outputs / annotations / rules, one to
+   three header columns, any widths and heights from 1, every text a block of lines): the plane built from the characters is
+   recognised as rules-as-columns with the drawn hit policy, rule count and fields, under the two hypotheses of the plane-level theorem
+   (known finding columns-first-text-is-marker): the first input expression is not read as a hit-policy marker, the top-left text of
+   the output block is not read as a number; rule numbers need to be read back for the drawn rules only *)
+Theorem C19_text_to_table_columns : forall code s, wf_ctable s = true ->
+  forall parse_hp parse_num hp, parse_hp (bc code (ht_hp s)) = Some hp ->
+  (forall k n i o a, nth_error (ht_rules s) k = Some (n, i, o, a) -> parse_num (bc code n) = Some (S k)) ->
+  first_input_not_marker parse_hp (abs_htable s code) = true -> first_output_not_number parse_num (abs_htable s code) = true ->
+  exists p, canvas_to_plane code (drawm (column_drawing s)) = Some p /\
+            recognize_plane parse_hp parse_num p = Some (AsColumn, hp, h_nr s, fields_of (abs_htable s code)).
+Proof. exact text_to_table_columns. Qed.
+
+(* the hypotheses are met by the table of hsample drawn with rules as columns (csample, picture in C19/CanvasHeadersSweep.v): label
+   cell over the two output lines, three header columns, double lines above the outputs and the annotation *)
+Example C19_columns_text_nonvacuous :
+  wf_ctable csample = true /\ cplane_ok csample = true /\ ctable_ok csample = true /\ parsers_ok csample = true /\
+  first_input_not_marker (php csample) (abs_htable csample CanvasSweep.code) = true /\
+  first_output_not_number (pnum csample) (abs_htable csample CanvasSweep.code) = true /\
+  mcols (column_drawing csample) = 5 /\ mrows (column_drawing csample) = 6 /\
+  md_v1 (column_drawing csample) = 3 /\ md_h1 (column_drawing csample) = 2 /\ md_h2 (column_drawing csample) = Some 4 /\
+  md_reg (column_drawing csample) 2 0 = (2, 0, 4, 1) /\ md_reg (column_drawing csample) 3 0 = (2, 0, 4, 1) /\
+  md_reg (column_drawing csample) 0 1 = (0, 0, 1, 2) /\ md_reg (column_drawing csample) 5 2 = (5, 0, 6, 3) /\
+  nth 4 (mgrid (column_drawing csample)) [] = [9566; 9552; 9552; 9552; 9572; 9552; 9552; 9552; 9578; 9552; 9552; 9552; 9580; 9552; 9552; 9552; 9552; 9578; 9552; 9552; 9552; 9552; 9569]%N /\
+  nth 8 (mgrid (column_drawing csample)) [] = [9566; 9552; 9552; 9552; 9575; 9552; 9552; 9552; 9575; 9552; 9552; 9552; 9580; 9552; 9552; 9552; 9552; 9578; 9552; 9552; 9552; 9552; 9569]%N.
+Proof. exact columns_sweep. Qed.
+
 Print Assumptions C19_scan_layers_merged.
 Print Assumptions C19_canvas_scan_merged.
 Print Assumptions C19_canvas_cells_merged.
@@ -341,3 +382,6 @@ Print Assumptions C19_draw_roundtrip_merged.
 Print Assumptions C19_recognize_plane_same_partition.
 Print Assumptions C19_text_to_table_headers.
 Print Assumptions C19_headers_nonvacuous.
+Print Assumptions C19_recognize_plane_same_partition_columns.
+Print Assumptions C19_text_to_table_columns.
+Print Assumptions C19_columns_text_nonvacuous.
